@@ -36,6 +36,14 @@ fn all_rows() -> Vec<(Page, u8)> {
     v
 }
 
+/// every k-th case: a maskable request is pending while interrupts are disabled (must be invisible)
+fn maybe_masked(r: &mut Rng, s: &mut St, k: usize) {
+    if k % 5 == 4 {
+        s.iff1 = false;
+        s.int = Some(if k % 2 == 0 { r.pick(&RST_OPS) } else { r.u8() });
+    }
+}
+
 fn tagof(page: Page, op: u8) -> String {
     format!("{}:{:02X}", page.name(), op)
 }
@@ -59,7 +67,11 @@ pub fn c01(r: &mut Rng, tier: &str) -> Vec<Case> {
     let mut cases = vec![];
     for (page, op) in all_rows() {
         for k in 0..n {
-            let s = state_for(r, page, op);
+            let mut s = state_for(r, page, op);
+            if k % 4 == 1 {
+                alias_pc(r, &mut s, page, op);
+            }
+            maybe_masked(r, &mut s, k);
             let mut c = Case::new(format!("{}/hl{}sp{}k{}", tagof(page, op), cls16(s.pair(H)), cls16(s.sp), k % 4));
             c.key = tagof(page, op);
             c.push(sbox(s), P_NONE);
@@ -123,6 +135,7 @@ pub fn c02(r: &mut Rng, tier: &str) -> Vec<Case> {
         for k in 0..n {
             let mut s = state_for(r, page, op);
             s.regs[F] = if k % 2 == 0 { r.u8() } else { r.pick(&[0x00, 0xFF, 0x01, 0xD7, 0x28]) };
+            maybe_masked(r, &mut s, k);
             let mut c = Case::new(format!("{}/f{}", tagof(page, op), s.regs[F] & 1));
             c.key = tagof(page, op);
             c.push(sbox(s), P_NONE);
@@ -177,6 +190,10 @@ pub fn c03(r: &mut Rng, tier: &str) -> Vec<Case> {
             let e = if rel && !quick(tier) { (k % 256) as u8 } else if rel { es[k % 8] } else { v8(r) };
             let code = encode(page, op, e, v8(r), v8(r));
             s = with_code(s, &code);
+            if k % 4 == 3 {
+                alias_pc(r, &mut s, page, op);
+            }
+            maybe_masked(r, &mut s, k);
             let mut c = Case::new(format!("{}/pc{}sp{}f{}", tagof(page, op), cls16(s.pc), cls16(s.sp), k % 2));
             c.key = tagof(page, op);
             c.push(sbox(s), P_NONE);
@@ -226,8 +243,18 @@ pub fn c04(r: &mut Rng, tier: &str) -> Vec<Case> {
     let mut cases = vec![];
     let timing = Proj { mode: Mode::Timing, ..NONE };
     for (page, op) in all_rows() {
+        let cond = page == Page::Base && is_cond_base(op);
+        let n = if cond { n.max(256) } else { n };
         for k in 0..n {
             let mut s = state_for(r, page, op);
+            if cond {
+                // both outcomes of every condition: every flag byte; DJNZ: the B values around zero
+                s.regs[F] = (k % 256) as u8;
+                if op == 0x10 {
+                    s.regs[B] = [0u8, 1, 2, 0xFF, 0x80, 0x7F][k % 6];
+                }
+            }
+            maybe_masked(r, &mut s, k);
             if is_block_repeat(page, op) {
                 s.set_pair(B, [1u16, 2, 3, 7][k % 4]);
                 if op & 1 == 1 {
@@ -271,6 +298,7 @@ pub fn c05(r: &mut Rng, tier: &str) -> Vec<Case> {
         for k in 0..n {
             let mut s = state_for(r, page, op);
             s.dbg = [k % 2 == 0, k % 4 == 3, false, false];
+            maybe_masked(r, &mut s, k + 2);
             if matches!(page, Page::DDCB | Page::FDCB) {
                 let d = [0x00u8, 0x7F, 0x80, 0xFF][k % 4];
                 let pc = s.pc;
@@ -335,11 +363,14 @@ pub fn c06(r: &mut Rng, tier: &str) -> Vec<Case> {
                 _ => encode(page, op, d, v8(r), v8(r)),
             };
             s = with_code(s, &code);
+            if k % 9 == 4 {
+                alias_pc(r, &mut s, page, op);
+            }
             s.dbg = [k % 2 == 0, k % 5 == 0, false, false];
             let mut c = Case::new(format!("{}/e{}t{}", tagof(page, op), which, k % TOPS.len()));
             c.key = tagof(page, op);
             c.push(sbox(s), P_NONE);
-            c.push(Cmd::X, p_full_nor());
+            c.push(Cmd::X, Proj { regs: true, sp: true, pc: true, fmask: 0xD7, ..NONE });
             c.push(Cmd::D, p_mem());
             cases.push(c);
         }
@@ -1046,8 +1077,11 @@ pub fn c15(r: &mut Rng, tier: &str) -> Vec<Case> {
                     let code = encode(page, op, v8(r), v8(r), v8(r));
                     s = with_code(s, &code);
                 }
+                if k % 4 == 2 {
+                    alias_pc(r, &mut s, page, op);
+                }
                 let pc = s.pc;
-                let mut c = Case::new(format!("{}/pc{}", tagof(page, op), cls16(pc)));
+                let mut c = Case::new(format!("{}/pc{}a{}", tagof(page, op), cls16(pc), (k % 4 == 2) as u8));
                 c.key = tagof(page, op);
                 c.push(sbox(s), P_NONE);
                 c.push(Cmd::DA(pc), p_mem());
